@@ -74,6 +74,7 @@ func newTreePipeline(cfg *config) tree {
 
 func (t *treePipeline) output(w io.Writer, r io.Reader, cfg *config) error {
 	ctx, cancel := context.WithCancel(cfg.ctx)
+	defer verifPoint("main.return", 0, "")
 	defer cancel()
 
 	splitStream, errcsl := split(ctx, r)
@@ -85,12 +86,16 @@ func (t *treePipeline) output(w io.Writer, r io.Reader, cfg *config) error {
 
 func (t *treePipeline) outputProgrammably(w io.Writer, root *Node, cfg *config) error {
 	ctx, cancel := context.WithCancel(cfg.ctx)
+	defer verifPoint("main.return", 0, "")
 	defer cancel()
 
 	rootStream := make(chan *Node)
 	go func() {
 		defer close(rootStream)
+		defer verifPoint("feeder.exit", 0, "")
+		verifPoint("feeder.send.pre", 0, verifName(root))
 		rootStream <- root
+		verifPoint("feeder.send.post", 0, verifName(root))
 	}()
 	growStream, errcg := t.grower.grow(ctx, rootStream)
 	errcs := t.spreader.spread(ctx, w, growStream)
@@ -99,6 +104,7 @@ func (t *treePipeline) outputProgrammably(w io.Writer, root *Node, cfg *config) 
 
 func (t *treePipeline) mkdir(r io.Reader, cfg *config) error {
 	ctx, cancel := context.WithCancel(cfg.ctx)
+	defer verifPoint("main.return", 0, "")
 	defer cancel()
 
 	t.grower.enableValidation()
@@ -116,12 +122,16 @@ func (t *treePipeline) mkdir(r io.Reader, cfg *config) error {
 
 func (t *treePipeline) mkdirProgrammably(root *Node, cfg *config) error {
 	ctx, cancel := context.WithCancel(cfg.ctx)
+	defer verifPoint("main.return", 0, "")
 	defer cancel()
 
 	rootStream := make(chan *Node)
 	go func() {
 		defer close(rootStream)
+		defer verifPoint("feeder.exit", 0, "")
+		verifPoint("feeder.send.pre", 0, verifName(root))
 		rootStream <- root
+		verifPoint("feeder.send.post", 0, verifName(root))
 	}()
 	t.grower.enableValidation()
 	// when detect invalid node name, return error. process end.
@@ -138,6 +148,7 @@ func (t *treePipeline) mkdirProgrammably(root *Node, cfg *config) error {
 
 func (t *treePipeline) verify(r io.Reader, cfg *config) error {
 	ctx, cancel := context.WithCancel(cfg.ctx)
+	defer verifPoint("main.return", 0, "")
 	defer cancel()
 
 	t.grower.enableValidation()
@@ -150,12 +161,16 @@ func (t *treePipeline) verify(r io.Reader, cfg *config) error {
 
 func (t *treePipeline) verifyProgrammably(root *Node, cfg *config) error {
 	ctx, cancel := context.WithCancel(cfg.ctx)
+	defer verifPoint("main.return", 0, "")
 	defer cancel()
 
 	rootStream := make(chan *Node)
 	go func() {
 		defer close(rootStream)
+		defer verifPoint("feeder.exit", 0, "")
+		verifPoint("feeder.send.pre", 0, verifName(root))
 		rootStream <- root
+		verifPoint("feeder.send.post", 0, verifName(root))
 	}()
 	t.grower.enableValidation()
 	// when detect invalid node name, return error. process end.
@@ -167,6 +182,7 @@ func (t *treePipeline) verifyProgrammably(root *Node, cfg *config) error {
 
 func (t *treePipeline) walk(r io.Reader, callback func(*WalkerNode) error, cfg *config) error {
 	ctx, cancel := context.WithCancel(cfg.ctx)
+	defer verifPoint("main.return", 0, "")
 	defer cancel()
 
 	splitStream, errcsl := split(ctx, r)
@@ -178,12 +194,16 @@ func (t *treePipeline) walk(r io.Reader, callback func(*WalkerNode) error, cfg *
 
 func (t *treePipeline) walkProgrammably(root *Node, callback func(*WalkerNode) error, cfg *config) error {
 	ctx, cancel := context.WithCancel(cfg.ctx)
+	defer verifPoint("main.return", 0, "")
 	defer cancel()
 
 	rootStream := make(chan *Node)
 	go func() {
 		defer close(rootStream)
+		defer verifPoint("feeder.exit", 0, "")
+		verifPoint("feeder.send.pre", 0, verifName(root))
 		rootStream <- root
+		verifPoint("feeder.send.post", 0, verifName(root))
 	}()
 	growStream, errcg := t.grower.grow(ctx, rootStream)
 	errcw := t.walker.walk(ctx, growStream, callback)
@@ -229,19 +249,25 @@ func (*treePipeline) handlePipelineErr(ctx context.Context, echs ...<-chan error
 	for i := range echs {
 		i := i
 		eg.Go(func() error {
+			verifPoint("h.select.pre", uint64(i), "")
 			select {
 			case err, ok := <-echs[i]:
 				if !ok {
+					verifPoint("h.select.closed", uint64(i), "")
 					return nil
 				}
 				if err != nil {
+					verifPoint("h.select.err", uint64(i), "")
 					return err
 				}
 			case <-ectx.Done():
+				verifPoint("h.select.ctx", uint64(i), "")
 				return ectx.Err()
 			}
 			return nil
 		})
 	}
+	verifPoint("main.wait.pre", uint64(len(echs)), "")
+	defer verifPoint("main.wait.post", 0, "")
 	return eg.Wait()
 }
